@@ -590,6 +590,43 @@ def work_ppo(item, col):
                 col.outcome("ppo_cases_at_unchanged_policy", int(all(p == 0 for p in place)))
     col.sample(dict(item=item["name"], logp=lp, values=V, cases=n_case, c_v=cv, c_e=ce))
     ppo_epochs(item, col, head, N, pv, seed, cshape)
+    if head == "gauss2" and cshape == "N":
+        ppo_extreme_logp(item, col, N, seed, cv, ce)
+
+
+def ppo_extreme_logp(item, col, N, seed, cv, ce):
+    """Unchanged policy (old log-probabilities = current ones, ratio exactly 1) with log-probabilities far outside the
+    range in which exp() is finite in float32 (many action dimensions with a tiny / large standard deviation): value and
+    actor gradient are those of the unclipped surrogate, in particular finite."""
+    entry = "ppo_loss"
+    for A, lv in ((20, -13.8), (40, 4.0)):
+        net = GaussianMLP(False, 2, A, [3], "tanh", nnx.Rngs(seed + A))
+        Ll = net.output_layers[1]
+        Ll.kernel.value = jnp.zeros_like(Ll.kernel.value)
+        Ll.bias.value = jnp.full(Ll.bias.value.shape, lv, dtype=jnp.float32)
+        actor = GaussianPolicy(net)
+        critic = make_critic("N", seed + 3)
+        obs, _, _ = make_batch("gauss2", N, seed)
+        act = actor(obs) + 0.5 * jnp.exp(0.5 * lv)  # half a standard deviation off the mean in every dimension
+        lp32 = actor.log_probability(obs, act)
+        lp = f64(lp32)
+        adv = f32([ALPHA3[(i + 2) % 3] for i in range(N)])
+        V32 = jnp.reshape(critic(obs), (-1,))
+        R32 = V32 + 1.0
+        base = dict(item=item["name"], action_dimensions=A, log_variance=lv, logp=lp)
+        col.tick(2, (item["name"], "extreme-logp", A))
+        col.outcome("ppo_unchanged_policy_cases_with_|logp|>88", int(np.min(np.abs(lp)) > 88))
+        ok, r = guarded(col, entry, N, base, lambda: nnx.value_and_grad(getattr(PPO.ppo_loss, "_c12_orig", PPO.ppo_loss), argnums=(0, 1))(actor, critic, lp32, obs, act, adv, R32, 0.2))
+        if not ok:
+            continue
+        lval, (ga, gc) = r
+        want = -float(np.mean(f64(adv))) + cv * 1.0 - ce * float(np.mean(f64(actor.entropy(obs))))
+        if not (np.isfinite(float(lval)) and abs(float(lval) - want) <= 1e-4 * max(1.0, abs(want))):
+            col.violation(SIG.format(entry, K_PPO_SAME), dict(base, what="loss value at unchanged policy", got=float(lval), want=want))
+            continue
+        rga, _ = nnx.grad(ppo_ref, argnums=(0, 1))(actor, critic, lp32, obs, act, adv, R32, 0.2, jnp.zeros(N, dtype=bool), cv, ce)
+        if not gclose(ga, rga, rtol=2e-3):
+            col.violation(SIG.format(entry, K_PPO_SAME), dict(base, what="actor gradient at unchanged policy", got_norm=gnorm(ga), want_norm=gnorm(rga)))
 
 
 _PPO_CALLS = []
